@@ -39,4 +39,5 @@ S.bounded('jit_differential', ['C15', 'C01', 'C05'], _run('jit_differential'))
 S.bounded('readonly_inputs', ['C19'], _run('readonly_inputs'))
 S.bounded('fault_injection', ['C20'], _run('fault_injection'))
 S.bounded('forms_equivalence', ['C18'], _run('forms_equivalence'))
+S.bounded('chi_members', ['C17'], _run('chi_members'))
 S.bounded('phase_trace', ['C03', 'C09', 'C12', 'C13', 'C16'], _run('phase_trace'))
